@@ -517,7 +517,7 @@ func genStageCache(r *Rand) []string {
 				ops = append(ops, fmt.Sprintf("received %s %s %s %s %d 0 %d %d", esc(o.f.name), esc(o.f.renamed), esc(o.f.prev), esc(o.f.hash), ft, o.f.cuts[1], tick()))
 			}
 			if r.Chance(0.4) {
-				ops = append(ops, fmt.Sprintf("status %s %d %d", esc(o.f.name), -(o.age + 100), tick()))
+				ops = append(ops, fmt.Sprintf("status %s %d %d", esc(o.f.name), -(o.age+100), tick()))
 			}
 		}
 		if r.Chance(0.8) {
